@@ -3,6 +3,7 @@ package core
 import (
 	"fmt"
 	"os"
+	"strconv"
 	"runtime"
 	"runtime/metrics"
 	"strings"
@@ -16,6 +17,14 @@ var progress atomic.Int64
 // HangBudget is the wall-clock time without progress and without CPU use after
 // which the worker gives up (set before StartWatchdog).
 var HangBudget = 120 * time.Second
+
+func init() {
+	if v := os.Getenv("VF_HANG_S"); v != "" {
+		if n, err := strconv.Atoi(v); err == nil {
+			HangBudget = time.Duration(n) * time.Second
+		}
+	}
+}
 
 // Tick records that the harness made progress (a step reached quiescence, a
 // case began or ended). The watchdog measures CPU time and heap between ticks.
